@@ -62,16 +62,23 @@ func H_Registers() {
 	vp.Assume(!(vp.And(csel >= 10, int(csel) < 10+n)))            // CSEL outside the stop range
 	vp.Assume(!(vp.And(int(csel)+64 >= 10, int(csel)+64 < 10+n))) // also after wrap-around (10+n can reach 68)
 	var d rec.Dest
-	d.SetCSel(csel)
-	d.SetNSel(nsel)
-	var m ref.VM
-	m.CSel, m.NSel = csel, nsel
-	d.Log = nil
 	g := generate.Generator{Destination: &d}
 	stops := mkStops(n, n <= 3)
 	shape := generate.GradientShape(vp.Choice("shape", 2))
 	spread := generate.GradientSpread(vp.Choice("spread", 4))
 	tr := generate.Aff3{vp.F32("a"), vp.F32("b"), vp.F32("c"), vp.F32("d"), vp.F32("e"), vp.F32("f")}
+	if vp.Choice("prior", 2) == 1 {
+		// the Generator has set a gradient of the same geometry before and the
+		// destination was reset since (the next graphic): the call under test must
+		// still write everything the gradient value refers to
+		g.SetGradient(shape, spread, twoStops, tr)
+		g.Reset(ivg.DefaultViewBox, ivg.DefaultPalette)
+	}
+	d.SetCSel(csel)
+	d.SetNSel(nsel)
+	var m ref.VM
+	m.CSel, m.NSel = csel, nsel
+	d.Log = nil
 	err := g.SetGradient(shape, spread, stops, tr)
 	vp.Reach("set")
 	vp.Assert(err == nil, "a gradient with at most 58 stops and CSEL outside the stop range is accepted")
